@@ -135,6 +135,7 @@ func init() {
 		ruleTBLops(w, r)
 		ruleGRDlive(w, r)
 		ruleGRDalias(w, r)
+		ruleGRDliveMemo(w, r) // the set a `!=` clause complements follows every add and delete
 		ruleSIBsame(w, r)
 		ruleSIBnumtypes(w, r)
 		ruleSIBnumconv(w, r)
@@ -165,6 +166,7 @@ func init() {
 		ruleLCK1graph(w, r)     // an edge operation that keeps a shard locked ends every later query of that shard
 		ruleSIBpeerparam(w, r)  // the forward list is searched for the target, the reverse list for the source
 		ruleGRDviewdelete(w, r) // pruning one view never deletes from the other
+		ruleGRDvacuumAll(w, r)  // the graph vacuum looks at every edge of every list: no list is skipped on the strength of one entry
 	})
 	register("C11", "graph queries compute exact bounded reachability and shortest paths", func(w *World, r *Report) {
 		ruleGRDbfs(w, r, []bfsSpec{{"pkg/engine", "Engine.resolveGraphFilter", 5}, {"pkg/engine", "Engine.VExtractSubgraph", 5}, {"pkg/engine", "Engine.FindPath", 0}}, "GRD-bfs")
